@@ -97,14 +97,29 @@ def _reference(G, B, l1, l2):
     return X
 
 
+MAGS = (-40, -20, 0, 30)     # binary exponents of the change of units (NNLSTrace.tla: MagSet); float32 runs use -15 / 0
+
+
 def _run(case, G, B, start, n_iter=None):
-    """one call of the solver of this case from `start` (None = the solver's default start)."""
+    """one call of the solver of this case from `start` (None = the solver's default start).
+
+    Change of units (exact in binary floating point): the design is multiplied by 2^sa and the data by 2^sb, i.e. the
+    solver receives UtU = 4^sa G, UtM = 2^(sa+sb) B, l1 * 2^(sa+sb), l2 * 4^sa, a start multiplied by 2^(sb-sa) and the
+    options that are absolute by documentation scaled with them (fista/hals `epsilon` in units of x, active_set `tol` in
+    units of UtM).  The returned solution is divided by 2^(sb-sa): NNLS.tla's ScaleInvariant theorem says it must be the
+    solution of the unscaled problem."""
     from tensorly.solvers.nnls import hals_nnls, fista, active_set_nnls
     from tensorly.solvers.admm import admm
     n, k = B.shape
-    l1, l2 = case["p1"] / case["q"], case["p2"] / case["q"]
+    sa, sb = case.get("sa", 0), case.get("sb", 0)
+    dt = np.dtype(case.get("dt", "float64"))
+    xs, ms = 2.0 ** (sb - sa), 2.0 ** (sa + sb)
+    Gs = np.ldexp(G, 2 * sa).astype(dt)
+    Bs = np.ldexp(B, sa + sb).astype(dt)
+    l1, l2 = case["p1"] / case["q"] * ms, case["p2"] / case["q"] * 4.0 ** sa
+    st = None if start is None else np.ldexp(np.asarray(start, dtype=np.float64), sb - sa).astype(dt)
     solver, variant = case["solver"], case["variant"]
-    eps = case.get("ep", 0) / case.get("eq", 1)
+    eps = case.get("ep", 0) / case.get("eq", 1) * xs
     if solver == "hals":
         if n_iter is not None:
             kw = dict(n_iter_max=n_iter, tol=1e-16)
@@ -116,24 +131,26 @@ def _run(case, G, B, start, n_iter=None):
             kw["nonzero_rows"] = True
         if case.get("ep", 0):
             kw["epsilon"] = eps
-        return hals_nnls(B.copy(), G.copy(), V=None if start is None else start.copy(), sparsity_coefficient=(l1 if case["p1"] else None),
-                         ridge_coefficient=(l2 if case["p2"] else None), **kw)
-    if solver == "fista":
+        out = hals_nnls(Bs.copy(), Gs.copy(), V=None if st is None else st.copy(), sparsity_coefficient=(l1 if case["p1"] else None),
+                        ridge_coefficient=(l2 if case["p2"] else None), **kw)
+    elif solver == "fista":
         tol = 0.0 if variant == "tol0" else 1e-16
-        kw = dict(epsilon=eps) if case.get("ep", 0) else {}
-        return fista(B.copy(), G.copy(), x=None if start is None else start.copy(), sparsity_coef=l1, ridge_coef=l2, tol=tol,
-                     n_iter_max=n_iter if n_iter is not None else case.get("cap", FISTA_CAP), **kw)
-    if solver == "active_set":
+        out = fista(Bs.copy(), Gs.copy(), x=None if st is None else st.copy(), sparsity_coef=l1, ridge_coef=l2, tol=tol,
+                    n_iter_max=n_iter if n_iter is not None else case.get("cap", FISTA_CAP),
+                    epsilon=eps if case.get("ep", 0) else 1e-8 * xs)        # the documented default floor, in the units of x
+    elif solver == "active_set":
         cols = []
         for j in range(k):
-            x0 = None if start is None else start[:, j].copy()
-            cols.append(np.asarray(active_set_nnls(B[:, j].copy(), G.copy(), x=x0, tol=1e-16,
+            x0 = None if st is None else st[:, j].copy()
+            cols.append(np.asarray(active_set_nnls(Bs[:, j].copy(), Gs.copy(), x=x0, tol=1e-16 * ms,
                                                    n_iter_max=n_iter if n_iter is not None else 100)).reshape(n))
-        return np.stack(cols, axis=1)
-    if solver == "admm":
-        x, _, _ = admm(B.T.copy(), G.copy(), np.zeros((k, n)), np.zeros((k, n)), n_const=None)
-        return np.asarray(x).T
-    raise ValueError(solver)
+        out = np.stack(cols, axis=1)
+    elif solver == "admm":
+        x, _, _ = admm(Bs.T.copy(), Gs.copy(), np.zeros((k, n), dtype=dt), np.zeros((k, n), dtype=dt), n_const=None)
+        out = np.asarray(x).T
+    else:
+        raise ValueError(solver)
+    return np.asarray(out, dtype=np.float64) / xs
 
 
 def solve(case, G, B):
@@ -178,7 +195,8 @@ def execute(case):
     n, k = B.shape
     ev = {"id": case["id"], "kind": case["kind"], "solver": case["solver"], "variant": case["variant"], "mode": case["mode"],
           "p1": case["p1"], "p2": case["p2"], "q": case["q"], "raised": False, "exc": "", "size": 0, "nlow": 0, "x": [],
-          "nzr": bool(case.get("nzr", False)), "zero_rows": 0, "ep": case.get("ep", 0), "eq": case.get("eq", 1)}
+          "nzr": bool(case.get("nzr", False)), "zero_rows": 0, "ep": case.get("ep", 0), "eq": case.get("eq", 1),
+          "sa": case.get("sa", 0), "sb": case.get("sb", 0), "dt": case.get("dt", "float64")}
     if case["kind"] == "exact":
         ev.update(G=case["G"], B=case["B"])
     else:
@@ -244,8 +262,13 @@ def build_cases(chk, cfgs, thorough):
         """one random proper subset of the unknowns per column (possibly empty)"""
         return [[i for i in range(n) if rng.random() < 0.5][: n - 1] if n > 1 else [] for _ in range(k)]
 
+    def draw_mag():
+        """binary exponents (sa, sb) of the change of units of one problem: 40% unscaled, else any of the 16 pairs"""
+        return (0, 0) if rng.random() < 0.4 else (rng.choice(MAGS), rng.choice(MAGS))
+
     def add_exact(G, p1, p2, q_, cols, variants, exact_mode, batch, pi=0):
         nonlocal n_exact_mode
+        sa, sb = draw_mag()
         Gf = np.array(G, dtype=np.float64)
         Bf = np.array(cols, dtype=np.float64).T
         n, k = len(G), len(cols)
@@ -285,7 +308,8 @@ def build_cases(chk, cfgs, thorough):
                     src = sub_solution(Gf, Bf, p1 / q_, p2 / q_, random_supports(n, k))
                 start = make_start(variant, rng, n, k, src)
             c = {"id": "C13/%s-%s/%06d" % (solver, variant, len(cases)), "kind": "exact", "solver": solver, "variant": variant,
-                 "mode": mode, "G": [list(r) for r in G], "B": cols, "p1": p1, "p2": p2, "q": q_, "start": start, "flags": flags}
+                 "mode": mode, "G": [list(r) for r in G], "B": cols, "p1": p1, "p2": p2, "q": q_, "start": start, "flags": flags,
+                 "sa": sa, "sb": sb, "dt": "float64"}
             c.update(opt)
             cases.append(c)
 
@@ -308,6 +332,10 @@ def build_cases(chk, cfgs, thorough):
         n, k = rng.randint(4, 8), (rng.randint(1, 3) if cheap else rng.randint(1, 5))
         p1, p2, q_ = (0, 0, 1) if cheap else pens[t % 4]
         gs = rng.randrange(2**31)
+        if t % 3 == 2:              # single precision, design in small units (squared column norms below float32 eps) or not
+            dt, (sa, sb) = "float32", (rng.choice((-15, -15, 0)), rng.choice((-15, 0)))
+        else:
+            dt, (sa, sb) = "float64", draw_mag()
         Gm, Bm, _ = gen_problem({"gen_seed": gs, "n": n, "k": k, "cond_max": 60.0})
         kflags = {"ls_nonpos": bool(np.all(np.linalg.solve(Gm, Bm) <= 0)), "batch": "cheap" if cheap else "main", "signed": True}
         # solution-like start of another problem: clipped least-squares solution for the reversed, negated right-hand sides
@@ -332,7 +360,7 @@ def build_cases(chk, cfgs, thorough):
                 start = make_start(variant, rng, n, k, src)
             c = {"id": "C13/kkt-%s-%s/%06d" % (solver, variant, len(cases)), "kind": "kkt", "solver": solver, "variant": variant,
                  "mode": "cap", "cap": 6000, "n": n, "k": k, "p1": p1, "p2": p2, "q": q_, "gen_seed": gs, "cond_max": 60.0,
-                 "start": start, "flags": kflags}
+                 "start": start, "flags": kflags, "sa": sa, "sb": sb, "dt": dt}
             c.update(opt)
             cases.append(c)
     return cases, len(problems), nprob_domain, n_exact, n_exact_mode
@@ -379,6 +407,9 @@ def run(chk, opts):
         "NumPy backend only",
         "exact tier: integer SPD Gram matrices with 1-3 unknowns (cond <= 34, plus the [[19,9],[9,19]] reproducer), integer right-hand sides",
         "solutions compared at 1e-5 (SolTol) with the exact rational minimiser; measured tier judged by KKT residuals <= 5e-5 (cond <= 60)",
+        "magnitude: problems are also posed in other units (design * 2^a, data * 2^b, a, b in {-40,-20,0,30}; float32 with a = -15 in the measured tier); "
+        "options that are absolute by documentation (fista/hals epsilon, active_set tol) are scaled with the units -- the documented absolute defaults "
+        "(fista epsilon=1e-8 floor, active_set tol=1e-7 on the gradient) are NOT exercised in small units",
         "options: hals nonzero_rows=True (no all-zero row unless the solution is zero), epsilon=1/2 for hals and fista (minimiser over x >= epsilon); "
         "chained starts: output of a truncated run of the same solver, exact minimiser restricted to a random support",
         "warm starts: ones, two other all-positive scales, two random partial-support draws, the solution of a different problem (active set: all; fista: a subset; hals: ones and the solution)",
